@@ -57,8 +57,8 @@ theorem idsDistinct_iff (l : List Member) : IdsDistinct l ↔ DistinctIds l := b
   unfold IdsDistinct DistinctIds List.Nodup
   rw [List.pairwise_map]
 
-theorem wf_split {ms : List Member} (h : WellFormed ms) : IdsDistinct ms ∧ TopicsOnce ms :=
-  ⟨(idsDistinct_iff ms).mpr h.1, h.2⟩
+theorem wf_split {ms : List Member} (h : WellFormed ms) : IdsDistinct ms :=
+  (idsDistinct_iff ms).mpr h
 
 theorem IdsDistinct.perm {l₁ l₂ : List Member} (h : l₁.Perm l₂) (hd : IdsDistinct l₁) : IdsDistinct l₂ :=
   (h.pairwise_iff (fun {_ _} hxy => fun e => hxy e.symm)).mp hd
@@ -96,27 +96,29 @@ theorem strict_sorted_unique : ∀ (l₁ l₂ : List Member), l₁.Perm l₂ →
 
 /-! ## `appendByTopic` and the subscribers -/
 
-theorem filter_eq_of_nodup (t : Nat) : ∀ (l : List Nat), l.Nodup →
-    l.filter (· == t) = if l.contains t then [t] else []
-  | [], _ => by simp
-  | x :: xs, h => by
-    have h' := List.nodup_cons.mp h
-    have ih := filter_eq_of_nodup t xs h'.2
+theorem firstListings_filter (t : Nat) : ∀ (l pre : List Nat),
+    (firstListings pre l).filter (· == t) = if t ∈ pre then [] else if t ∈ l then [t] else []
+  | [], pre => by simp [firstListings]
+  | x :: xs, pre => by
+    have ih := firstListings_filter t xs (pre ++ [x])
+    unfold firstListings
     by_cases hx : x = t
     · subst hx
-      simp [ih, h'.1]
-    · have hx' : (x == t) = false := by simpa using hx
-      have : ¬ t = x := fun e => hx e.symm
-      simp [hx', ih, this]
+      by_cases hp : x ∈ pre
+      · simp [hp, ih]
+      · simp [hp, List.filter_cons, ih]
+    · have htx : ¬ t = x := fun e => hx e.symm
+      by_cases hp : x ∈ pre
+      · simp [hp, ih, htx]
+      · simp [hp, List.filter_cons, hx, ih, htx]
 
-theorem appendByTopic_eq_subscribers (t : Nat) : ∀ (ms : List Member), TopicsOnce ms →
-    appendByTopic t ms = subscribers ms t
-  | [], _ => rfl
-  | m :: ms, h => by
-    have hm : m.topics.Nodup := h m List.mem_cons_self
-    have ih := appendByTopic_eq_subscribers t ms (fun x hx => h x (List.mem_cons_of_mem _ hx))
+/-- a member is entered under `t` exactly once iff `t` occurs in its topic list, however often -/
+theorem appendByTopic_eq_subscribers (t : Nat) : ∀ (ms : List Member), appendByTopic t ms = subscribers ms t
+  | [] => rfl
+  | m :: ms => by
+    have ih := appendByTopic_eq_subscribers t ms
     unfold appendByTopic subscribers
-    rw [filter_eq_of_nodup t _ hm, ih, List.filter_cons]
+    rw [firstListings_filter t _ [], ih, List.filter_cons]
     unfold subscribers
     by_cases hc : t ∈ m.topics <;> simp [hc]
 
@@ -124,16 +126,16 @@ theorem subscribers_distinct (ms : List Member) (t : Nat) (hd : IdsDistinct ms) 
   hd.sublist List.filter_sublist
 
 /-- under the hypotheses the sorted member list of a topic is a strictly sorted permutation of its subscribers -/
-theorem findMembers_perm (ms : List Member) (t : Nat) (h : TopicsOnce ms) :
+theorem findMembers_perm (ms : List Member) (t : Nat) :
     (findMembersByTopic ms t).Perm (subscribers ms t) := by
   unfold findMembersByTopic
-  rw [appendByTopic_eq_subscribers t ms h]
+  rw [appendByTopic_eq_subscribers t ms]
   exact sortById_perm _
 
-theorem findMembers_strict (ms : List Member) (t : Nat) (hd : IdsDistinct ms) (h : TopicsOnce ms) :
+theorem findMembers_strict (ms : List Member) (t : Nat) (hd : IdsDistinct ms) :
     (findMembersByTopic ms t).Pairwise (fun a b => a.id < b.id) := by
   unfold findMembersByTopic
-  rw [appendByTopic_eq_subscribers t ms h]
+  rw [appendByTopic_eq_subscribers t ms]
   exact sortById_strict _ (subscribers_distinct ms t hd)
 
 /-! ## the member × partition double loop: every index is selected by exactly one member ⇒ cover -/
@@ -374,21 +376,21 @@ theorem rank_sorted : ∀ (sub : List Member) (k : Nat) (m : Member), sub.Pairwi
     have := hs'.1 m hm
     simp [List.filter_cons, this, ih]
 
-theorem rank_eq (ms : List Member) (t : Nat) (hd : IdsDistinct ms) (h : TopicsOnce ms) (k : Nat) (m : Member)
+theorem rank_eq (ms : List Member) (t : Nat) (hd : IdsDistinct ms) (k : Nat) (m : Member)
     (hk : (findMembersByTopic ms t)[k]? = some m) : rank ms t m.id = k := by
   unfold rank
-  rw [← ((findMembers_perm ms t h).filter _).length_eq]
-  exact rank_sorted _ k m (findMembers_strict ms t hd h) hk
+  rw [← ((findMembers_perm ms t).filter _).length_eq]
+  exact rank_sorted _ k m (findMembers_strict ms t hd) hk
 
 /-- the entry of a subscriber is what the double loop picks for its rank -/
 theorem entry_of_subscriber (sel : Nat → Nat → Bool) (parts : List Int) (ms : List Member) (t : Nat)
-    (hd : IdsDistinct ms) (h : TopicsOnce ms) (m : Member) (hm : m ∈ subscribers ms t) :
+    (hd : IdsDistinct ms) (m : Member) (hm : m ∈ subscribers ms t) :
     collect m.id (assignGo sel parts 0 (findMembersByTopic ms t)) = pick (sel (rank ms t m.id)) 0 parts ∧
     rank ms t m.id < (subscribers ms t).length := by
-  have hp := findMembers_perm ms t h
+  have hp := findMembers_perm ms t
   have hdist : IdsDistinct (findMembersByTopic ms t) := (subscribers_distinct ms t hd).perm hp.symm
   obtain ⟨k, hk, hc⟩ := collect_assignGo_mem sel parts _ 0 hdist m (hp.mem_iff.mpr hm)
-  have hr := rank_eq ms t hd h k m hk
+  have hr := rank_eq ms t hd k m hk
   have hlt : k < (findMembersByTopic ms t).length := by
     rcases List.getElem?_eq_some_iff.mp hk with ⟨hlt, _⟩; exact hlt
   rw [hp.length_eq] at hlt
@@ -396,16 +398,16 @@ theorem entry_of_subscriber (sel : Nat → Nat → Bool) (parts : List Int) (ms 
   exact ⟨hc, by omega⟩
 
 theorem entry_of_other (sel : Nat → Nat → Bool) (parts : List Int) (ms : List Member) (t id : Nat)
-    (h : TopicsOnce ms) (hid : ∀ m ∈ subscribers ms t, m.id ≠ id) :
+    (hid : ∀ m ∈ subscribers ms t, m.id ≠ id) :
     collect id (assignGo sel parts 0 (findMembersByTopic ms t)) = [] :=
-  collect_assignGo_absent sel parts id _ 0 (fun m hm => hid m ((findMembers_perm ms t h).mem_iff.mp hm))
+  collect_assignGo_absent sel parts id _ 0 (fun m hm => hid m ((findMembers_perm ms t).mem_iff.mp hm))
 
 /-- the subscribers' entries together are the concatenation of everything the loop appended -/
 theorem entries_perm (sel : Nat → Nat → Bool) (parts : List Int) (ms : List Member) (t : Nat)
-    (hd : IdsDistinct ms) (h : TopicsOnce ms) :
+    (hd : IdsDistinct ms) :
     ((subscribers ms t).flatMap (fun m => collect m.id (assignGo sel parts 0 (findMembersByTopic ms t)))).Perm
       ((assignGo sel parts 0 (findMembersByTopic ms t)).flatMap (·.2)) := by
-  have hp := findMembers_perm ms t h
+  have hp := findMembers_perm ms t
   have hdist : IdsDistinct (findMembersByTopic ms t) := (subscribers_distinct ms t hd).perm hp.symm
   rw [← flatMap_collect sel parts _ 0 hdist]
   exact List.Perm.flatMap_right _ hp.symm
@@ -427,10 +429,9 @@ theorem pick_rr_stride (M i : Nat) (l : List Int) : pick (rrSel M i) 0 l = strid
 /-- the sorted member list of a topic depends only on the set of members -/
 theorem findMembers_perm_invariant (ms ms' : List Member) (hp : ms.Perm ms') (h : WellFormed ms) (t : Nat) :
     findMembersByTopic ms t = findMembersByTopic ms' t := by
-  obtain ⟨hd, ho⟩ := wf_split h
+  have hd := wf_split h
   have hd' : IdsDistinct ms' := hd.perm hp
-  have ho' : TopicsOnce ms' := fun m hm => ho m (hp.mem_iff.mpr hm)
-  apply strict_sorted_unique _ _ _ (findMembers_strict ms t hd ho) (findMembers_strict ms' t hd' ho')
-  exact (findMembers_perm ms t ho).trans ((hp.filter _).trans (findMembers_perm ms' t ho').symm)
+  apply strict_sorted_unique _ _ _ (findMembers_strict ms t hd) (findMembers_strict ms' t hd')
+  exact (findMembers_perm ms t).trans ((hp.filter _).trans (findMembers_perm ms' t).symm)
 
 end KV.GroupBalancer
